@@ -11,7 +11,10 @@ reject path) and BulkWriteTrace.tla (trace validation).
     topologies of the quantifier) projected to scripts: per-host outcome sequences + breaker schedule.
  3. The driver `bulkwrite` runs every script several times against the real bulk.SeqDBClient with
     scripted stores (the shard order is random, so the replay is adaptive), checks the property directly
-    against the stores' own bookkeeping and records every run as a trace.
+    against the stores' own bookkeeping and records every run as a trace.  Two dimensions of the
+    environment are part of the scripts: the request context ends (caller cancels / deadline passes) after a
+    chosen shard call, and a shard's breaker rejects because it is open or because MaxConcurrent other real
+    bulks are parked inside it (cep21 concurrency limit).
  4. TLC validates every recorded run against BulkWriteTrace (all invariants evaluated on the real
     execution).  A run no behaviour of the spec explains, or one on which an invariant fails, is a
     violation.  Self-test on every run of the check: two corrupted traces must be rejected."""
@@ -59,9 +62,14 @@ def _load_scripts(path, origin, acc, stats):
             stats["emitted"] += 1
             stats["res_" + c["res"]] = stats.get("res_" + c["res"], 0) + 1
             sc = {"topo": c["topo"], "hot": c["hot"], "cold": c["cold"],
-                  "rejs": [[{"t": x[0], "s": x[1]} for x in e] for e in c["rejs"]], "origin": origin,
+                  "rejs": [[{"t": x[0], "s": x[1], "k": x[2]} for x in e] for e in c["rejs"]], "origin": origin,
+                  "cancel": c["cancel"], "ckind": c["ckind"] if c["cancel"] else "-",
                   "tlc_res": c["res"], "tlc_att": c["att"]}
-            k = vlib.jhash([sc["topo"], sc["hot"], sc["cold"], sc["rejs"]])
+            if c["cancel"]:
+                stats["with_cancel"] = stats.get("with_cancel", 0) + 1
+            if any(x["k"] == "limit" for e in sc["rejs"] for x in e):
+                stats["with_limit"] = stats.get("with_limit", 0) + 1
+            k = vlib.jhash([sc["topo"], sc["hot"], sc["cold"], sc["rejs"], sc["cancel"], sc["ckind"]])
             if k not in acc:
                 acc[k] = sc
 
@@ -150,11 +158,15 @@ def _short(e):
                 "maxtries": e["maxtries"], "guard": e["guard"]}
     if e["ev"] == "shard":
         return {"ev": "shard", "t": e["t"], "s": e["s"], "called": e["called"], "out": e["out"], "open": e["open"]}
+    if e["ev"] == "cancel":
+        return {"ev": "cancel"}
     return {"ev": "ret", "res": e["res"], "acc": e["acc"]}
 
 
 def _compact(e):
-    op = ",".join("%s%d" % (o["t"], o["s"]) for o in e["open"])
+    op = ",".join("%s%d%s" % (o["t"], o["s"], "" if o["k"] == "open" else ":" + o["k"]) for o in e["open"])
+    if e["ev"] == "cancel":
+        return "request context done"
     if e["ev"] == "reset":
         return "reset hot=%dx%d cold=%dx%d open=[%s] guard=%s" % (e["hs"], e["hr"], e["cs"], e["cr"], op, e["guard"])
     if e["ev"] == "shard":
@@ -183,27 +195,49 @@ def _split_runs(path, offset=0):
     return [r for r in runs if r and r[-1].startswith('{"ev":"ret"')]
 
 
-def _synthetic_good():
+def _line(**k):
     F = [[False] * 3 for _ in range(3)]
+    d = {"ev": "", "t": "", "s": 0, "called": [], "out": ["-", "-", "-"], "open": [], "res": "", "acc": {"hot": F, "cold": F},
+         "hs": 0, "hr": 0, "cs": 0, "cr": 0, "maxtries": 3, "guard": True, "n": 0, "rep": 0}
+    d.update(k)
+    return json.dumps(d, separators=(",", ":"))
 
-    def line(**k):
-        d = {"ev": "", "t": "", "s": 0, "called": [], "out": ["-", "-", "-"], "open": [], "res": "", "acc": {"hot": F, "cold": F},
-             "hs": 0, "hr": 0, "cs": 0, "cr": 0, "maxtries": 3, "guard": True, "n": 0, "rep": 0}
-        d.update(k)
-        return json.dumps(d, separators=(",", ":"))
+
+def _synthetic_good():
     hot = [[True, False, False], [True, True, False], [False] * 3]
     cold = [[True, False, False], [False] * 3, [False] * 3]
-    return [line(ev="reset", hs=2, hr=2, cs=1, cr=1, open=[{"t": "hot", "s": 1}]),
-            line(ev="shard", t="cold", s=1, called=[1], out=["lost", "-", "-"], open=[{"t": "hot", "s": 1}]),
-            line(ev="shard", t="cold", s=1, called=[1], out=["ok", "-", "-"], open=[{"t": "hot", "s": 1}]),
-            line(ev="shard", t="hot", s=2, called=[2, 1], out=["ok", "err", "-"]),
-            line(ev="shard", t="hot", s=1, called=[1, 2], out=["lost", "err", "-"]),
-            line(ev="shard", t="hot", s=2, called=[2], out=["-", "ok", "-"]),
-            line(ev="ret", res="ok", acc={"hot": hot, "cold": cold})]
+    op = [{"t": "hot", "s": 1, "k": "open"}]
+    return [_line(ev="reset", hs=2, hr=2, cs=1, cr=1, open=op),
+            _line(ev="shard", t="cold", s=1, called=[1], out=["lost", "-", "-"], open=op),
+            _line(ev="shard", t="cold", s=1, called=[1], out=["ok", "-", "-"], open=op),
+            _line(ev="shard", t="hot", s=2, called=[2, 1], out=["ok", "err", "-"]),
+            _line(ev="shard", t="hot", s=1, called=[1, 2], out=["lost", "err", "-"]),
+            _line(ev="shard", t="hot", s=2, called=[2], out=["-", "ok", "-"]),
+            _line(ev="ret", res="ok", acc={"hot": hot, "cold": cold})]
+
+
+def _synthetic_env(good):
+    """hand-written runs for the two environment dimensions: the only shard's breaker is at its concurrency limit
+    (good: three rejected attempts, error; bad: acknowledged), and the request context ends after a failed first
+    attempt (good: the remaining attempts fail, error; bad: acknowledged after the failed attempt)."""
+    F3 = [[False] * 3 for _ in range(3)]
+    busy = [{"t": "hot", "s": 1, "k": "limit"}]
+    part = [[True, False, False], [False] * 3, [False] * 3]
+    lim = [_line(ev="reset", hs=1, hr=2, open=busy),
+           _line(ev="ret", res="err" if good else "ok", acc={"hot": F3, "cold": F3})]
+    ctx = [_line(ev="reset", hs=1, hr=2),
+           _line(ev="shard", t="hot", s=1, called=[1, 2], out=["ok", "err", "-"]),
+           _line(ev="cancel")]
+    if good:
+        ctx += [_line(ev="shard", t="hot", s=1, called=[2], out=["-", "err", "-"]),
+                _line(ev="shard", t="hot", s=1, called=[2], out=["-", "err", "-"])]
+    ctx += [_line(ev="ret", res="err" if good else "ok", acc={"hot": part, "cold": F3})]
+    return lim, ctx
 
 
 def _selftest(ctx, runs):
-    """B2 self-test: a trace with one field corrupted and one with one event removed must be rejected."""
+    """B2 self-test: a trace with one field corrupted and one with one event removed must be rejected; so must the
+    hand-written runs in which a throttled shard / a failed attempt under an ended context is acknowledged."""
     pick = None
     for r in runs:
         evs = [json.loads(x) for x in r]
@@ -222,14 +256,18 @@ def _selftest(ctx, runs):
     a = [json.dumps(e, separators=(",", ":")) for e in a]
     last_shard = max(i for i, e in enumerate(pick) if e["ev"] == "shard")
     b = [json.dumps(e, separators=(",", ":")) for i, e in enumerate(pick) if i != last_shard]   # event removed
-    # a fixed, hand-written run that is a behaviour of the spec (independent of the code under test)
-    vg = _validate_chunk(ctx, 9000, [_synthetic_good()], "BulkWriteTrace_strict.cfg")
-    va = _validate_chunk(ctx, 9001, [a], "BulkWriteTrace.cfg")
-    vb = _validate_chunk(ctx, 9002, [b], "BulkWriteTrace.cfg")
-    if not vg["accepted"] or va["accepted"] or vb["accepted"]:
-        raise vlib.Infra("trace-validation self-test failed: synthetic good accepted=%s, corrupted accepted=%s, removed accepted=%s" % (
-            vg["accepted"], va["accepted"], vb["accepted"]))
-    return [vg["sub"], va["sub"], vb["sub"]]
+    # fixed, hand-written runs that are behaviours of the spec (independent of the code under test)
+    glim, gctx = _synthetic_env(True)
+    blim, bctx = _synthetic_env(False)
+    jobs = [(9000, [_synthetic_good(), glim, gctx], "BulkWriteTrace_strict.cfg"), (9001, [a], "BulkWriteTrace.cfg"),
+            (9002, [b], "BulkWriteTrace.cfg"), (9003, [blim], "BulkWriteTrace.cfg"), (9004, [bctx], "BulkWriteTrace.cfg")]
+    with ThreadPoolExecutor(max_workers=len(jobs)) as ex:
+        vs = list(ex.map(lambda j: _validate_chunk(ctx, *j), jobs))
+    vg, bad = vs[0], vs[1:]
+    if not vg["accepted"] or any(v["accepted"] for v in bad):
+        raise vlib.Infra("trace-validation self-test failed: hand-written good runs accepted=%s; corrupted / removed / "
+                         "throttled-but-acknowledged / cancelled-but-acknowledged accepted=%s" % (vg["accepted"], [v["accepted"] for v in bad]))
+    return [v["sub"] for v in vs]
 
 
 def run(ctx):
